@@ -928,7 +928,7 @@ theorem save_load_roundtrip (d : Dataset) (old : Folder)
     save old (.dataset d) = .ok (d.map fileOf) ∧
     ∀ d', d'.Perm d → load (some (d'.map fileOf)) = .ok d' := by
   constructor
-  · unfold save
+  · unfold save rmtree
     simp only
     have := saveBundle_eq [] d (fun a ha => (hp a ha).1)
       (by simpa using names_nodup d hk (fun a ha => (hp a ha).2))
@@ -941,6 +941,48 @@ theorem save_load_roundtrip (d : Dataset) (old : Folder)
       exact (hperm.map _).nodup_iff.mpr hk
     have := loadFrom_fileOf [] d' (fun a ha => (hp a (hperm.mem_iff.mp ha)).2) hk'
     simpa using this
+
+/-- **save is a state machine over the folder; load returns the last dataset saved.** Whatever the folder holds
+    — arbitrary files `fs0`, then the bundles of any history of saves (datasets with other attributes, pickled
+    ones included) —, after `save` of a dataset with distinct plain dot-free keys the folder holds exactly one
+    file per attribute of *that* dataset, and `load` (any `listdir` order) returns exactly its attributes:
+    nothing of the earlier bundles comes back. -/
+theorem save_history_roundtrip (fs0 fs : Folder) (history : List Dataset) (d : Dataset)
+    (_hhist : saveAll fs0 history = .ok fs)
+    (hk : (d.map (·.key)).Nodup) (hp : ∀ a ∈ d, plainKey a.key = true ∧ DotFree a.key) :
+    saveAll fs0 (history ++ [d]) = .ok (d.map fileOf) ∧
+    ∀ d', d'.Perm d → load (some (d'.map fileOf)) = .ok d' := by
+  have hlast := save_load_roundtrip d fs hk hp
+  refine ⟨?_, hlast.2⟩
+  have happ : ∀ (hist : List Dataset) (f0 f1 : Folder), saveAll f0 hist = .ok f1 →
+      saveAll f0 (hist ++ [d]) = saveAll f1 [d] := by
+    intro hist
+    induction hist with
+    | nil => intro f0 f1 h; unfold saveAll at h; cases h; rfl
+    | cons x xs ih =>
+      intro f0 f1 h
+      have hc : ∀ (ys : List Dataset), saveAll f0 (x :: ys) =
+          match save f0 (.dataset x) with
+          | .ok fs' => saveAll fs' ys
+          | .error e => .error e := fun _ => rfl
+      simp only [List.cons_append]
+      rw [hc] at h ⊢
+      cases hs : save f0 (.dataset x) with
+      | error e => rw [hs] at h; cases h
+      | ok f2 =>
+        rw [hs] at h
+        simp only at h ⊢
+        exact ih f2 f1 h
+  rw [happ history fs0 fs _hhist]
+  unfold saveAll
+  rw [hlast.1]
+  rfl
+
+/-- a history with pickled attributes that the last dataset lacks: the earlier `meta.p` / `source.p` are gone -/
+example : saveAll [⟨"notes.p".toList, .other, 9⟩]
+      [[⟨"adjacency".toList, .csr, 0⟩, ⟨"meta".toList, .other, 1⟩, ⟨"source".toList, .other, 2⟩],
+       [⟨"adjacency".toList, .csr, 3⟩, ⟨"names".toList, .ndarray, 4⟩]]
+    = .ok [⟨"adjacency.npz".toList, .csr, 3⟩, ⟨"names.npy".toList, .ndarray, 4⟩] := by rfl
 
 example : (([⟨"adjacency".toList, .csr, 0⟩, ⟨"names".toList, .ndarray, 1⟩, ⟨"meta".toList, .other, 2⟩] : Dataset).map
     Attr.key).Nodup ∧ plainKey "adjacency".toList = true ∧ DotFree "adjacency".toList := by
